@@ -224,6 +224,17 @@ class SeqEngine(object):
                 os.chdir(cwd)
             if self.world is not None:
                 res.events = self.world.run.seq
+                kn = self.world.knobs
+                for k in ("relstore", "two_instances", "short_writes"):
+                    if kn.get(k):
+                        res.flags.add("knob:" + k)
+                if kn.get("pid_skin"):
+                    res.flags.add("knob:pid-skin-" + kn["pid_skin"][0])
+                for k in ("short-write", "exdev"):
+                    n = self.world.run.counts.get(k)
+                    if n:
+                        res.stats.setdefault("faults", {})
+                        res.stats["faults"][k] = res.stats["faults"].get(k, 0) + n
                 res.digest = self.world.run.digest()
                 res.stats["seam_counts"] = dict(self.world.run.counts)
                 res.stats["escapes"] = list(self.world.run.escapes)
